@@ -911,3 +911,23 @@ mut("C12", "r11-basic-auth-endpoint-always-ok", "api/endpoints_meta.go",
 mut("C09", "r11-response-loader-ignores-content-type", "formats/dsd/http.go",
     "\treturn loadFromHTTP(resp.Body, resp.Header.Get(httpHeaderContentType), t)", "\treturn loadFromHTTP(resp.Body, \"\", t)",
     "C09-R11|formats/dsd.LoadFromHTTPRequest ~ formats/dsd.LoadFromHTTPResponse")
+
+# ---- round 5 (seeded changes -e1/-e2) --------------------------------------------------------
+def r5(prop, name, seed, expect):
+    from_patch(prop, name, seed, expect, comment="round-5 seed " + seed)
+r5("C01", "r11-shutdown-skips-stop-after-failed-start", "C01-e1", "C01-R11|modules.Shutdown")
+r5("C02", "r17-evicted-record-stays-in-write-cache", "C02-e2", "C02-R17|database.(*Interface).cacheEvictHandler")
+r5("C03", "r11-nil-options-are-privileged", "C03-e2", "C03-R11|database.NewInterface")
+r5("C05", "r12-hook-bound-to-event-module", "C05-e2", "C05-R12|modules.(*Module).RegisterEventHook")
+r5("C06", "r1-microtask-result-not-named", "C06-e1", "C06-R1|modules.(*Module).runMicroTask / dynamic call of param:fn / panic error reaches the caller")
+r5("C06", "r13-no-rearm-after-panic", "C06-e2", "C06-R13|modules.(*Task).executeWithLocking$1")
+r5("C07", "r11-promoted-task-not-marked", "C07-e1", "C07-R11|modules.taskScheduleHandler / overtime=true")
+r5("C07", "r10-prioritize-ignored-when-queued", "C07-e2", "C07-R10|modules.(*Task).QueuePrioritized")
+r5("C12", "r12-auth-error-not-handled", "C12-e2", "C12-R12|api.checkAuth / error response")
+r5("C14", "r10-immediate-delete-not-notified", "C14-e1", "C14-R10|database.(*Controller).Put / return")
+r5("C15", "r9-stop-completion-global-count", "C15-e2", "C15-R9|modules.(*Module).checkIfStopComplete")
+r5("C16", "r12-unpack8-128-one-byte", "C16-e1", "C16-R12|formats/varint.Unpack8")
+r5("C16", "r13-getmax-skips-request", "C16-e2", "C16-R13|container.(*Container).GetMax")
+r5("C17", "r5-copy-error-overwritten", "C17-e1", "C17-R5|utils.CreateAtomic / error of io.Copy is examined on every path")
+r5("C17", "r9-unpack-without-lock", "C17-e2", "C17-R9|updater.(*Resource).UnpackArchive")
+r5("C19", "r11-index-only-on-create", "C19-e2", "C19-R11|updater.(*ResourceRegistry).addResource")
